@@ -72,7 +72,7 @@ Print Assumptions C11_value_not_yet_written_refuted.
 
 (* REFUTED (known finding): reclaiming snapshot loses untouched persisted keys *)
 Theorem C11_reclaim_window_refuted :
-  w_get (w_crash w_recl ["a"; "b"; "$connections"; "$$token"] ScWrite 1) "b" = Some None /\
+  w_get (w_crash w_recl ["a"; "b"; "$connections"; "$$token"] ScWrite 2) "b" = Some None /\
          w_get (w_crash w_recl ["a"; "b"; "$connections"; "$$token"] ScRename 2) "b" = Some None.
 Proof. exact C11_reclaim_window_refuted. Qed.
 Print Assumptions C11_reclaim_window_refuted.
